@@ -931,7 +931,9 @@ def alias_inline(fn, stmts):
             return (isinstance(p, ast.Attribute) and p.value is n) or (isinstance(p, ast.Subscript) and p.value is n) or \
                    (isinstance(p, ast.Call) and isinstance(p.func, ast.Name) and p.func.id in ('len', 'list', 'iter', 'enumerate', 'sorted', 'reversed', 'tuple') and n in p.args) or \
                    (isinstance(p, (ast.For, ast.comprehension)) and p.iter is n) or \
-                   (isinstance(p, ast.Compare) and isinstance(p.ops[0], (ast.In, ast.NotIn)) and n in p.comparators)
+                   (isinstance(p, ast.Compare) and isinstance(p.ops[0], (ast.In, ast.NotIn)) and n in p.comparators) or \
+                   (isinstance(p, ast.Compare) and len(p.ops) == 1 and isinstance(p.ops[0], (ast.Is, ast.IsNot, ast.Eq, ast.NotEq)) and
+                    any(isinstance(o_, ast.Constant) and o_.value is None for o_ in [p.left] + p.comparators))      # `env != None`: a test of the reference
         if uses and all(objlike(n) for n in uses):
             keep[x] = chain
     if not keep:
